@@ -80,6 +80,7 @@ def token_soup(r: random.Random, alphabet: list[str], n: int) -> str:
 
 
 ILL_TYPED = [
+	'@__actual__(1.0)\nclass A: ...\n', '@__actual__(1)\nclass A:\n\tpass\n', '@__actual__()\nclass A: ...\n', "@__actual__('int', 2)\nclass A: ...\n",
 	'x: dict[int] = {}\n', 'def f(a: dict[str]) -> None:\n\tpass\n', 'class A:\n\tdef __init__(self) -> None:\n\t\tself.m: dict[str] = {}\n', 'def f() -> None:\n\tx: tuple[()] = ()\n',
 	'def f() -> None:\n\ta = a\n', 'x = x + 1\n', 'a = b\nb = a\n', 'def f() -> None:\n\tfor i in i:\n\t\tpass\n', 'class A(A):\n\tpass\n\n\ndef f() -> None:\n\tA().x\n', 'class A(B):\n\tpass\n\n\nclass B(A):\n\tpass\n\n\ndef f() -> None:\n\tB().x\n',
 	'def f() -> None:\n\ta = len()\n', 'def f() -> None:\n\ta = super()\n', 'def f() -> None:\n\tfor i in range(1, 2, 3, 4):\n\t\tpass\n',
